@@ -33,6 +33,33 @@ def uartFifoKind (depth : Nat) (sinkCd sourceCd : String) : UartFifoKind :=
 def uartTxFifo (depth : Nat) (phyCd : String) : UartFifoKind := uartFifoKind depth "sys" phyCd
 def uartRxFifo (depth : Nat) (phyCd : String) : UartFifoKind := uartFifoKind depth phyCd "sys"
 
+/-! ### Constructor arithmetic of the asynchronous FIFO
+
+  `stream.AsyncFIFO.__init__(layout, depth=None, buffered)`: `depth = 4 if depth is None else depth`,
+  `assert depth >= 4`, then Migen `AsyncFIFO.__init__`: `depth_bits = log2_int(depth, need_pow2=True)` with
+  `log2_int(n) = (n - 1).bit_length()`, raising `ValueError` unless `1 << r == n`.  There is NO rounding: a
+  requested depth that is not a power of two is refused.  Pointers have `depth_bits + 1` bits, the storage has
+  `depth` words. -/
+
+/-- Python `int.bit_length()`. -/
+def bitLength (n : Nat) : Nat := if n = 0 then 0 else Nat.log2 n + 1
+
+/-- `some k` = the FIFO is built with `depth_bits = k`; `none` = the constructor raises. -/
+def afifoCtor (depth : Option Nat) : Option Nat :=
+  let d := depth.getD 4
+  if d < 4 then none
+  else
+    let r := bitLength (d - 1)
+    if 2 ^ r ≠ d then none else some r
+
+/-- Words the built FIFO can hold: storage words, plus the output register of `AsyncFIFOBuffered`. -/
+def afifoCapacity (k : Nat) (buffered : Bool) : Nat := 2 ^ k + (if buffered then 1 else 0)
+
+def showCtor (depth : Option Nat) (buffered : Bool) : String :=
+  match afifoCtor depth with
+  | none => "refused"
+  | some k => s!"built {k} {2 ^ k} {afifoCapacity k buffered}"
+
 def CdcKind.show : CdcKind → String
   | .wire => "wire"
   | .buffer => "buffer"
